@@ -1,6 +1,7 @@
 (* Base.v — small shared utilities: decimal printing, association lists (Python dicts are
    insertion-ordered association lists in every model of this development). *)
-From Coq Require Export List Arith Bool ZArith String Lia.
+From Coq Require Export String.
+From Coq Require Export List Arith Bool ZArith Lia.   (* after String: `length`, `concat` ... are the list ones *)
 From Coq Require Import DecimalString.
 Export ListNotations.
 
